@@ -353,6 +353,20 @@ impl ComputeTasksBuilder {
         node_list: Vec<WorkerId>,
     ) -> Option<ToWorkerMessage> {
         let conf = &task.configuration;
+        // The data collected so far are sent before a task that does not fit to them is added,
+        // otherwise the message may grow over the frame size (MAX_FRAME_SIZE)
+        let mut task_size = size_of::<ComputeTaskSeparateData>()
+            + size_of_val(node_list.as_slice())
+            + task.entry.as_ref().map(|e| e.len()).unwrap_or_default();
+        if !self.configuration_index.contains_key(conf) {
+            task_size += size_of::<ComputeTaskSharedData>() + conf.body.len();
+        }
+        let msg = if !self.tasks.is_empty() && self.estimated_size + task_size > MAX_TASK_MSG_SIZE
+        {
+            self.create_message()
+        } else {
+            None
+        };
         let shared_index = *self
             .configuration_index
             .entry(conf.clone())
@@ -380,23 +394,27 @@ impl ComputeTasksBuilder {
         self.estimated_size += estimate_task_data_size(&task_data);
         self.tasks.push(task_data);
 
-        self.create_message_on_overflow()
+        msg.or_else(|| self.create_message_on_overflow())
     }
 
     /// If there are any pending task data, materialize them into a new ComputeTasks message
     /// and push it into `self.messages`. Also resets any internal auxiliary data.
     fn create_message_on_overflow(&mut self) -> Option<ToWorkerMessage> {
         if self.estimated_size > MAX_TASK_MSG_SIZE {
-            let msg = ComputeTasksMsg {
-                tasks: std::mem::take(&mut self.tasks),
-                shared_data: std::mem::take(&mut self.shared_data),
-            };
-            self.configuration_index.clear();
-            self.estimated_size = 0;
-            Some(ToWorkerMessage::ComputeTasks(msg))
+            self.create_message()
         } else {
             None
         }
+    }
+
+    fn create_message(&mut self) -> Option<ToWorkerMessage> {
+        let msg = ComputeTasksMsg {
+            tasks: std::mem::take(&mut self.tasks),
+            shared_data: std::mem::take(&mut self.shared_data),
+        };
+        self.configuration_index.clear();
+        self.estimated_size = 0;
+        Some(ToWorkerMessage::ComputeTasks(msg))
     }
 
     /// If there are any tasks in this builder, generate a message
